@@ -20,7 +20,7 @@ for f in sorted(glob.glob(os.path.join(ROOT, "seeded", "*", "meta.json"))):
         if only and pid not in only:
             continue
         by_pid.setdefault(pid, []).append(os.path.dirname(f))
-scratch = "/var/tmp/xtl-seedreg"
+scratch = "/var/tmp/xtl-seedreg-%s-%d" % ("_".join(sorted(only)) or "all", os.getpid())
 shutil.rmtree(scratch, ignore_errors=True)
 
 
